@@ -769,7 +769,10 @@ def flag_loop(f, mod, c):
                 else:
                     break
             good = good and found
-        if good:
+        # the flag is tested BEFORE the first block (while-form): in a do { wait } while (!flag) loop a signal that arrived
+        # before the wait is never noticed and the thread sleeps on a notification that was already sent
+        tested_first = any(f.dominates(a.term, c) for (a, b) in exits)
+        if good and tested_first:
             return True
     return False
 
@@ -933,7 +936,8 @@ class DepthRun(ContractRun):
         def cell(o, off):
             v = T.mem.get((o, off, 4))
             return T.as_s(v) if isinstance(v, IntVal) else None
-        T.ghost['depth'] = cell(T.ghost['cnt'], 0)
+        dv = T.mem.get((T.ghost['cnt'], 0, 4))
+        T.ghost['depth'] = T.force_s(dv) if isinstance(dv, IntVal) else None
         T.ghost['locks'] = cell(T.ghost['cells'], 0)
         T.ghost['unlocks'] = cell(T.ghost['cells'], 4)
         return ContractRun.check_return(self, fn, spec, env, struct_params, T, rv, posts)
@@ -1003,6 +1007,16 @@ def depth_rules(rep, mod, repo):
     for nme in unlock_fns:
         exts[nme] = bump(4)
     it = Interp(mod, externals=exts, opaque=lock_fns | unlock_fns)
+
+    def saved_depth_hook(interp, st, i, p, v):
+        # precondition of system_lock_restore: the pair comes from system_lock_save() of a thread that held the lock,
+        # i.e. 1 <= save.count <= 9.  It is stated where the value is installed as the depth (independent of how the
+        # by-value struct argument is lowered).
+        if i.fn is restore and isinstance(p, PtrVal) and p.obj == st.ghost.get('cnt') and isinstance(v, IntVal):
+            sv = st.force_s(v)
+            st.cons.add_le(1, sv)
+            st.cons.add_le(sv, 9)
+    it.store_hook = saved_depth_hook
     run = DepthRun(it, [])
     specs = {
         'system_lock': FnSpec(setup=setup, pre=['depth >= 0', 'depth <= 8'], post=[
